@@ -418,6 +418,15 @@ class _Escape(Exception):
     pass
 
 
+def _cy_cast(n):
+    """(C type text, operand) of a cast node of the Cython front end (`<T>e`, a typed parameter of an inlined cdef
+    helper, its typed result), else None."""
+    if isinstance(n, ast.Call) and isinstance(n.func, ast.Name) and n.func.id == '__cy_cast__' and len(n.args) == 2 \
+            and not n.keywords and isinstance(n.args[0], ast.Constant) and isinstance(n.args[0].value, str):
+        return n.args[0].value, n.args[1]
+    return None
+
+
 _LOGGING = ('logger.', 'logging.', 'log.')
 
 
@@ -437,6 +446,7 @@ class _Exec:
         self.phase1 = None          # cells after the update, before the likelihood term
         self.scalars1 = None
         self.cond_site = {}         # atomic condition -> the first `if` whose test made it
+        self.cellname = {}          # plain name that holds an array cell for the duration of the body -> key of the cell
 
     # -- expressions
     def name(self, n):
@@ -477,6 +487,9 @@ class _Exec:
                 return sp.Integer(n.value)
             if isinstance(n.value, float):
                 return sp.Rational(repr(n.value))
+        if isinstance(n, ast.Name) and n.id in self.cellname:
+            k = self.cellname[n.id]
+            return self.env[k] if k in self.env else self.sym(self.initial(k))
         if isinstance(n, ast.Name):
             k = self.name(n.id)
             return self.env[k] if k in self.env else self.sym(k)
@@ -503,6 +516,12 @@ class _Exec:
             return self.cond(n)
         if isinstance(n, ast.Call) and (call_name(n) or '').split('.')[-1] in ('isclose', 'allclose'):
             return self.close(n)
+        if _cy_cast(n) is not None:
+            # a C cast TO double is the identity on the value of a double, a narrower float or a Python float
+            # (what else may flow here is C12.D3.domain.precision's business); any other target type changes values
+            if _cy_cast(n)[0] in _C_DOUBLE:
+                return self.ev(_cy_cast(n)[1])
+            raise AnalysisIncomplete('C cast to `%s` inside the update: %s' % (_cy_cast(n)[0], u(n)[:80]))
         if isinstance(n, ast.Call) and len(n.args) == 1 and not n.keywords:
             cn = call_name(n) or ''
             f = symx.FUNCS.get(cn)
@@ -631,7 +650,11 @@ class _Exec:
 
     # -- statements
     def store(self, t, val, stmt):
-        if isinstance(t, ast.Name):
+        if isinstance(t, ast.Name) and t.id in self.cellname:
+            k = self.cellname[t.id]
+            if k not in self.stored:
+                self.stored.append(k)
+        elif isinstance(t, ast.Name):
             k = self.name(t.id)
         elif isinstance(t, ast.Subscript):
             k = self.cell(t)
@@ -715,9 +738,9 @@ class _Exec:
     def writes_acc(self, s):
         return any(isinstance(x, ast.Name) and isinstance(x.ctx, ast.Store) and self.name(x.id) == self.acc for x in ast.walk(s))
 
-    @staticmethod
-    def stores_cell(s):
-        return any(isinstance(x, ast.Subscript) and isinstance(x.ctx, (ast.Store, ast.Del)) for x in ast.walk(s))
+    def stores_cell(self, s):
+        return any(isinstance(x, ast.Subscript) and isinstance(x.ctx, (ast.Store, ast.Del)) or
+                   isinstance(x, ast.Name) and isinstance(x.ctx, (ast.Store, ast.Del)) and x.id in self.cellname for x in ast.walk(s))
 
     def run_body(self, stmts):
         for s in _fold_continue(list(stmts)):
@@ -842,6 +865,90 @@ def _subscripts(root):
             yield x, isinstance(x.ctx, (ast.Store, ast.Del))
 
 
+def _index_apart(inner, outer_var):
+    """`for j in range(i + k, ...)` with a positive integer constant k and unit step: j > i in every iteration, so
+    `A[j]` and `A[i]` are different cells."""
+    parts = _range_parts(inner.iter)
+    if parts is None:
+        return False
+    sp = _sp()
+    try:
+        start, step = sp.expand(symx.lift(parts[0])), sp.expand(symx.lift(parts[2]))
+    except AnalysisIncomplete:
+        return False
+    d = sp.expand(start - sp.Symbol(outer_var, real=True))
+    return bool(step == 1 and d.is_Integer and d > 0)
+
+
+def promoted_cells(mod, fn, outer, inner, arrays):
+    """Scalar replacement of an array cell over an inner loop ("register promotion"), by role:
+
+        for i ...:                       (outer)
+            t = A[i]                     (load, directly in the outer body, ahead of the inner loop)
+            for j in range(i + k, ...):  (inner; k a positive constant)
+                ... t read and rebound; A accessed only as A[j] ...
+            A[i] = t                     (write-back, directly in the outer body, behind the inner loop)
+
+    is the same computation as the inner loop with `A[i]` in the place of every `t` and neither load nor write-back,
+    PROVIDED that (1) inside the inner loop A occurs only as the base of `A[j]`, j the inner loop variable, which
+    differs from i in every iteration (`_index_apart`), so the cell A[i] is neither read nor written there and `t` holds
+    at every point what the cell would hold; (2) `t` occurs nowhere else in the function (besides a value-less
+    declaration), so nothing observes the stale cell or the scalar; (3) no other statement of the outer body mentions A
+    or t, and neither loop variable is rebound; (4) the inner loop is not left by `return` (the write-back would be
+    skipped).  With zero iterations load + write-back are `A[i] = A[i]`.  Returns {t: (A, load, write-back)} for the
+    promotions that satisfy all of this; anything else is left to the caller (which then sees an unexplained store)."""
+    out = {}
+    if not (isinstance(outer.target, ast.Name) and isinstance(inner.target, ast.Name)) or inner.orelse:
+        return out
+    i, j = outer.target.id, inner.target.id
+    k = [n for n, s in enumerate(outer.body) if s is inner]
+    if not k or i == j or not _index_apart(inner, i):
+        return out
+    before, after = outer.body[:k[0]], outer.body[k[0] + 1:]
+
+    def cell_i(e, ctx):
+        return isinstance(e, ast.Subscript) and isinstance(e.ctx, ctx) and isinstance(e.value, ast.Name) and e.value.id in arrays \
+            and isinstance(e.slice, ast.Name) and e.slice.id == i
+    loads, backs = {}, {}
+    for s in before:
+        if isinstance(s, ast.Assign) and len(s.targets) == 1 and isinstance(s.targets[0], ast.Name) and cell_i(s.value, ast.Load):
+            loads.setdefault(s.targets[0].id, []).append(s)
+    for s in after:
+        if isinstance(s, ast.Assign) and len(s.targets) == 1 and cell_i(s.targets[0], ast.Store) and isinstance(s.value, ast.Name):
+            backs.setdefault(s.value.id, []).append(s)
+    rebinds = lambda root, nm, skip: any(isinstance(x, ast.Name) and x.id == nm and isinstance(x.ctx, (ast.Store, ast.Del))
+                                         and x is not skip for x in ast.walk(root))
+    if rebinds(outer, i, outer.target) or rebinds(inner, j, inner.target) or any(isinstance(x, ast.Return) for x in ast.walk(inner)):
+        return out
+    for t in sorted(set(loads) & set(backs)):
+        if len(loads[t]) != 1 or len(backs[t]) != 1 or t in arrays or t in (i, j):
+            continue
+        load, back = loads[t][0], backs[t][0]
+        A = load.value.value.id
+        if back.targets[0].value.id != A:
+            continue
+        ok = True
+        for x in ast.walk(fn):
+            if not (isinstance(x, ast.Name) and x.id in (t, A)):
+                continue
+            if _inside(mod, x, inner):
+                if x.id == A:
+                    p = mod.parent.get(x)
+                    ok = ok and isinstance(p, ast.Subscript) and p.value is x and isinstance(p.slice, ast.Name) and p.slice.id == j
+                continue
+            if _inside(mod, x, load) or _inside(mod, x, back):
+                continue
+            if x.id == A and not _inside(mod, x, outer):
+                continue
+            p = mod.parent.get(x)
+            if x.id == t and isinstance(p, ast.AnnAssign) and p.target is x and p.value is None:
+                continue            # `cdef double t`
+            ok = False
+        if ok and not any(isinstance(x, (ast.FunctionDef, ast.AsyncFunctionDef, ast.Lambda, ast.ClassDef)) for x in ast.walk(outer)):
+            out[t] = (A, load, back)
+    return out
+
+
 def find_roles(ck, mod, fn, impl):
     rule = 'C12.D3.roles'
     r = Roles()
@@ -921,8 +1028,13 @@ def find_roles(ck, mod, fn, impl):
     r.di = r.diag.target.id
     r.pi, r.pj = r.pair_i.target.id, r.pair_j.target.id
     # every in-place change of X / X_rs happens in one of the two bodies; C / C_rs are never changed
+    # a running row sum of the outer pair index kept in a scalar over the inner loop and written back behind it
+    r.promoted = promoted_cells(mod, fn, r.pair_i, r.pair_j, (r.Xrs,))
+    backs = [b for _, _, b in r.promoted.values()]
     for nm in (r.X, r.Xrs):
         for s in _inplace_sites(r.fi, nm):
+            if any(s is b for b in backs):
+                continue
             if not (_inside(mod, s, r.diag) or _inside(mod, s, r.pair_j)):
                 ck.missing(rule, '%s: `%s` changes %s outside the recognised update loops' % (impl, u(s)[:80], nm))
                 return None
@@ -1129,7 +1241,8 @@ def sweep_model(ck, r):
             g = _esc_guard(mod, x, own)
             kind = type(x).__name__.lower()
             if g and isinstance(x, ast.Continue) and own in (r.diag, r.pair_j) and not any(
-                    fi.cfg.reachable(g[-1][0], st, avoiding=[own]) for st in _cell_stores(own, (r.X, r.Xrs))):
+                    fi.cfg.reachable(g[-1][0], st, avoiding=[own])
+                    for st in _cell_stores(own, (r.X, r.Xrs)) + [w for t in r.promoted for w in _scalar_writes(own, t)]):
                 # a `continue` behind the last store of the iteration: it skips (part of) the likelihood term only;
                 # the symbolic execution below reads it as the if/else it stands for
                 continue
@@ -1155,6 +1268,11 @@ def sweep_model(ck, r):
     if 'pair' not in skipped:
         k = [n for n, s in enumerate(r.pair_i.body) if s is r.pair_j]
         before, after = (r.pair_i.body[:k[0]], r.pair_i.body[k[0] + 1:]) if k else (None, None)
+        if k:
+            # load / write-back of a promoted cell (`promoted_cells`): the scalar IS the cell X_rs[i] during the inner loop
+            moved = [s for _, ld, bk in r.promoted.values() for s in (ld, bk)]
+            before = [s for s in before if not any(s is m for m in moved)]
+            after = [s for s in after if not any(s is m for m in moved)]
         live = lambda ss: [s for s in ss if not isinstance(s, ast.Pass) and not (isinstance(s, ast.Expr) and isinstance(s.value, ast.Constant))]
         if before is None or live(after) or any(
                 not (isinstance(s, ast.Assign) and all(isinstance(t, ast.Name) for t in s.targets)) or
@@ -1176,6 +1294,8 @@ def sweep_model(ck, r):
             ck.missing(rule, '%s: roles are not distinct names' % impl)
             continue
         ex = _Exec(alias)
+        if tag == 'pair':
+            ex.cellname = {t: '%s[%s]' % (alias[A], alias[r.pi]) for t, (A, _, _) in r.promoted.items()}
         try:
             if tag == 'pair':
                 ex.run(prelude)
@@ -1657,7 +1777,11 @@ def d1_running_sums(ck, r):
                 other.append(st)
         elif isinstance(st, (ast.Assign, ast.AnnAssign)) and getattr(st, 'value', None) is not None:
             for tg in (st.targets if isinstance(st, ast.Assign) else [st.target]):
-                if is_cell(tg, R):
+                back = [t for t, (_, _, bk) in getattr(r, 'promoted', {}).items() if bk is st]
+                if back:
+                    # write-back of a row sum that lived in a scalar over the inner loop: incremental iff the scalar is
+                    (incremental if back[0] in _carried_scalars(r.pair_j) else other).append(st)
+                elif is_cell(tg, R):
                     ev = fi.expand(st.value, strict=False, stop=r.states)
                     # the new value of the cell is a function of its own previous value
                     (incremental if any(is_cell(x, R) and u(x.slice) == u(tg.slice) for x in ast.walk(ev)) else other).append(st)
@@ -2471,20 +2595,45 @@ def d4_dispatch(ck, mp):
     if a is None or isinstance(a, ast.Starred):
         ck.missing(rule, '_prinz_mle: first argument of `%s` not explicit' % u(c)[:80])
         return
-    forms = [P]
-    for f in ('np.asarray', 'np.ascontiguousarray', 'np.array', 'np.asanyarray'):
-        forms += ['%s(%s)' % (f, P)] + ['%s(%s, dtype=%s)' % (f, P, t) for t in ('float', 'np.float64', 'np.double', "'float64'")]
-    for t in ('float', 'np.float64', 'np.double', "'float64'"):
-        forms += ['%s.astype(%s)' % (P, t), '%s.copy().astype(%s)' % (P, t), '%s.astype(%s).copy()' % (P, t),
-                  'np.ascontiguousarray(%s.astype(%s))' % (P, t), "np.require(%s, dtype=%s, requirements='C')" % (P, t),
-                  "np.array(%s, dtype=%s, order='C')" % (P, t)]
-    forms += ['%s.copy()' % P, "np.require(%s, requirements='C')" % P, "np.array(%s, order='C')" % P]
-    v = classify(fi.expand(a), forms, scope={P})
+    def forms_of(N):
+        forms = [N]
+        for f in ('np.asarray', 'np.ascontiguousarray', 'np.array', 'np.asanyarray'):
+            forms += ['%s(%s)' % (f, N)] + ['%s(%s, dtype=%s)' % (f, N, t) for t in ('float', 'np.float64', 'np.double', "'float64'")]
+        for t in ('float', 'np.float64', 'np.double', "'float64'"):
+            forms += ['%s.astype(%s)' % (N, t), '%s.copy().astype(%s)' % (N, t), '%s.astype(%s).copy()' % (N, t),
+                      'np.ascontiguousarray(%s.astype(%s))' % (N, t), "np.require(%s, dtype=%s, requirements='C')" % (N, t),
+                      "np.array(%s, dtype=%s, order='C')" % (N, t)]
+        return forms + ['%s.copy()' % N, "np.require(%s, requirements='C')" % N, "np.array(%s, order='C')" % N]
+
+    def provenance(e, depth=6):
+        """`e` is a value-preserving conversion of ONE name, and every definition that reaches that name is the
+        parameter itself or, recursively, such a conversion (a matrix converted in steps / only on some paths is
+        still the caller's matrix).  The verdict of the first link that is not recognised is passed on."""
+        names = {n.id for n in ast.walk(e) if isinstance(n, ast.Name) and isinstance(n.ctx, ast.Load)} - {'np', 'numpy'}
+        if len(names) != 1:
+            return classify(e, forms_of(P), scope={P})
+        N = next(iter(names))
+        v = classify(e, forms_of(N), scope={N})
+        if v[0] != 'match':
+            return v if N == P else ('far',)
+        for use in [n for n in ast.walk(e) if isinstance(n, ast.Name) and n.id == N]:
+            for site in fi.defs_of_use(use):
+                if site == 'PARAM' and N == P:
+                    continue
+                val = None if isinstance(site, str) else fi.def_value(site, N)
+                if val is None or depth <= 0 or provenance(val, depth - 1)[0] != 'match':
+                    return ('far',)
+        return v
+    v = classify(fi.expand(a), forms_of(P), scope={P})
     # the parameter itself must be the caller's matrix (not rebound before the call)
     if v[0] == 'match':
         uses = [n for n in ast.walk(a) if isinstance(n, ast.Name) and n.id == P]
         if uses and set(fi.defs_of_use(uses[0])) != {'PARAM'}:
             v = ('far',)
+    if v[0] == 'far':
+        # ... or reach the call through a chain of such conversions (nodes of the function itself: def-use works on them)
+        v2 = provenance(a)
+        v = v2 if v2[0] == 'match' else v
     ck.decide(v, rule, mp, c, '_prinz_mle', u(c), 'dense input goes to the compiled estimator',
               '_prinz_mle must call _mle_prinz_dense(C, ...) with its own count matrix')
     _dispatch_dense_path(ck, mp, fd, fi, c, P)
@@ -2752,6 +2901,178 @@ def _yields_float64(e):
     return match_any(pats, e) is not None
 
 
+# -- element type of an array along the paths of a small wrapper: finite abstract domain of dtypes -----------------
+# (name, kind, itemsize, admitted by the quantifier "integer or real counts" and a realistic input)
+_DTYPES = (('int64', 'i', 8, True), ('float32', 'f', 4, True), ('int32', 'i', 4, True), ('uint64', 'u', 8, True),
+           ('float16', 'f', 2, True), ('longdouble', 'f', 16, True), ('float64', 'f', 8, True), ('>f8', 'f', 8, False),
+           ('bool', 'b', 1, False), ('complex128', 'c', 16, False), ('object', 'O', 8, False))
+_DT_SPELL = {'float64': _F64 + ('np.float_', "'<f8'", "'=f8'", 'np.dtype(float)', "np.dtype('float64')", 'np.dtype(np.float64)'),
+             'float32': ('np.float32', 'np.single', "'float32'", "'f4'", "'f'", 'numpy.float32'),
+             'float16': ('np.float16', 'np.half', "'float16'", "'f2'", "'e'"),
+             'longdouble': ('np.longdouble', 'np.float128', "'longdouble'", "'g'"),
+             'int64': ('np.int64', "'int64'", "'i8'", 'np.int_', 'np.intp', 'int'), 'int32': ('np.int32', "'int32'", "'i4'", 'np.intc'),
+             'uint64': ('np.uint64', "'uint64'", "'u8'"), 'bool': ('bool', 'np.bool_', "'bool'"),
+             'complex128': ('complex', 'np.complex128', "'complex128'"), 'object': ('object', 'np.object_', "'O'"), '>f8': ("'>f8'",)}
+# abstract scalar classes of np.issubdtype(<dtype>, K): the kinds they contain
+_DT_CLASS = {'np.floating': 'f', 'np.integer': 'iu', 'np.signedinteger': 'i', 'np.unsignedinteger': 'u', 'np.inexact': 'fc',
+             'np.number': 'iufc', 'np.complexfloating': 'c', 'np.generic': 'iufcbO', 'np.bool_': 'b'}
+_DT_PRESERVING = ('np.asarray', 'np.asanyarray', 'np.ascontiguousarray', 'np.asfortranarray', 'np.array', 'np.require', 'np.atleast_2d',
+                  'np.squeeze', 'np.copy')
+
+
+def _dtype_named(node):
+    t = u(node).replace('numpy.', 'np.').replace('"', "'")
+    for d, sp in _DT_SPELL.items():
+        if t in sp:
+            return d
+    return None
+
+
+def _dtype_eval(e, env):
+    """Element type (a name of _DTYPES) of the array `e` denotes, given the element types of the names; None if the
+    table does not decide it.  Frozen numpy facts: explicit dtype= / astype decide the result whatever the operand;
+    asarray & co. without dtype, copy, transposition, a basic slice keep the operand's."""
+    if isinstance(e, ast.Name):
+        return env.get(e.id)
+    if isinstance(e, ast.Attribute) and e.attr == 'T':
+        return _dtype_eval(e.value, env)
+    if isinstance(e, ast.Call):
+        cn = (call_name(e) or '').replace('numpy.', 'np.')
+        if any(isinstance(x, ast.Starred) for x in e.args) or any(k.arg is None for k in e.keywords):
+            return None
+        if isinstance(e.func, ast.Attribute) and e.func.attr == 'astype' and (e.args or kwarg(e, 'dtype') is not None):
+            return _dtype_named(e.args[0] if e.args else kwarg(e, 'dtype'))
+        if isinstance(e.func, ast.Attribute) and e.func.attr in ('copy', 'view', 'transpose', 'squeeze') and not e.args and not e.keywords:
+            return _dtype_eval(e.func.value, env)
+        if cn in _DT_PRESERVING and e.args:
+            dt = kwarg(e, 'dtype')
+            if dt is None and len(e.args) >= 2 and cn in ('np.asarray', 'np.asanyarray', 'np.ascontiguousarray', 'np.array', 'np.require'):
+                dt = e.args[1]
+            if dt is None or (isinstance(dt, ast.Constant) and dt.value is None):
+                return _dtype_eval(e.args[0], env)
+            return _dtype_named(dt)
+    return None
+
+
+def _dtype_test_atom(env, dense_atom):
+    """atom(test) -> function(k) -> True / False, or None: tests of the element type of a name whose element type is
+    known (np.issubdtype(X.dtype, K), X.dtype ==/!= K, X.dtype in (...), X.dtype.kind ==/in ..., X.dtype.itemsize == n),
+    besides the container tests of the caller (`dense_atom`)."""
+    info = {d: (k, n) for d, k, n, _ in _DTYPES}
+
+    def dtype_of(x):
+        if isinstance(x, ast.Attribute) and x.attr == 'dtype':
+            return _dtype_eval(x.value, env)
+        return None
+
+    def atom(t):
+        f = dense_atom(t)
+        if f is not None:
+            return f
+        val = None
+        if isinstance(t, ast.Call) and (call_name(t) or '').replace('numpy.', 'np.') == 'np.issubdtype' and len(t.args) == 2 and not t.keywords:
+            d = dtype_of(t.args[0])
+            K = u(t.args[1]).replace('numpy.', 'np.')
+            if d is not None and K in _DT_CLASS:
+                val = info[d][0] in _DT_CLASS[K]
+            elif d is not None and d != '>f8' and _dtype_named(t.args[1]) is not None and K.startswith('np.'):
+                val = d == _dtype_named(t.args[1])         # a concrete scalar type: the test looks at the type, not the byte order
+        elif isinstance(t, ast.Compare) and len(t.ops) == 1:
+            l, op, r = t.left, t.ops[0], t.comparators[0]
+            for a, b in ((l, r), (r, l)):
+                d = dtype_of(a)
+                if d is not None and isinstance(op, (ast.Eq, ast.NotEq)) and _dtype_named(b) is not None:
+                    val = (d == _dtype_named(b)) is isinstance(op, ast.Eq)
+                    break
+            if val is None and isinstance(l, ast.Attribute) and l.attr in ('kind', 'itemsize') and dtype_of(l.value) is not None:
+                have = info[dtype_of(l.value)][0 if l.attr == 'kind' else 1]
+                cv = const_value(r)
+                if isinstance(r, (ast.Tuple, ast.List, ast.Set)) and all(const_value(x) is not None for x in r.elts):
+                    cv = tuple(const_value(x) for x in r.elts)
+                if isinstance(op, (ast.Eq, ast.NotEq)) and isinstance(cv, (str, int)) and not isinstance(cv, bool):
+                    val = (have == cv) is isinstance(op, ast.Eq)
+                elif isinstance(op, (ast.In, ast.NotIn)) and isinstance(cv, (str, tuple)) and l.attr == 'kind':
+                    val = (have in cv) is isinstance(op, ast.In)
+            if val is None and isinstance(op, (ast.In, ast.NotIn)) and dtype_of(l) is not None and isinstance(r, (ast.Tuple, ast.List, ast.Set)) \
+                    and all(_dtype_named(x) is not None for x in r.elts):
+                val = (dtype_of(l) in [_dtype_named(x) for x in r.elts]) is isinstance(op, ast.In)
+        return None if val is None else (lambda k, _v=val: _v)
+    return atom
+
+
+def dtype_at_call(mod, fn, call, arg, P, dense_atom):
+    """Abstract execution of the (loop-free part of the) body of `fn` for every element type d of its parameter P:
+    [(d, element type of `arg` when `call` is evaluated or None, decided, [tests taken])] - one entry per path that
+    reaches the call; `decided`: every test on the path was a container / element-type test with a known value, so the
+    path IS taken by a dense ndarray of that element type.  None if the call sits where the walk does not go."""
+    results = []
+
+    class _Stop(Exception):
+        pass
+
+    def holds_call(s):
+        return any(x is call for x in ast.walk(s))
+
+    def kill(s, env):
+        for x in ast.walk(s):
+            if isinstance(x, ast.Name) and isinstance(x.ctx, (ast.Store, ast.Del)):
+                env[x.id] = None
+
+    def run(stmts, env, sure, taken, d0):
+        """States [(env, sure, taken)] that fall through the block."""
+        states = [(env, sure, taken)]
+        for s in stmts:
+            nxt = []
+            for env, sure, taken in states:
+                atom = _dtype_test_atom(env, dense_atom)
+                if isinstance(s, ast.If):
+                    if holds_call(s.test):
+                        raise _Stop()
+                    v = _tv(s.test, None, atom)
+                    for arm, pol in ((s.body, True), (s.orelse, False)):
+                        if v is (not pol):
+                            continue
+                        nxt += run(arm, dict(env), sure and v is not None, taken + [(s.test, pol)], d0)
+                    continue
+                if isinstance(s, (ast.For, ast.While, ast.Try, ast.With, ast.FunctionDef, ast.ClassDef, ast.AsyncFunctionDef)):
+                    if holds_call(s):
+                        raise _Stop()
+                    env = dict(env)
+                    kill(s, env)
+                    leaves = any(isinstance(x, (ast.Return, ast.Raise, ast.Break, ast.Continue)) for x in ast.walk(s))
+                    nxt.append((env, sure and not leaves, taken))
+                    continue
+                if holds_call(s):
+                    inner = [x for x in ast.walk(s) if isinstance(x, (ast.IfExp, ast.BoolOp, ast.Lambda, ast.ListComp, ast.GeneratorExp,
+                                                                        ast.SetComp, ast.DictComp)) and any(y is call for y in ast.walk(x))]
+                    results.append((d0, _dtype_eval(arg, env), sure and not inner, taken))
+                if isinstance(s, (ast.Return, ast.Raise)):
+                    continue
+                if isinstance(s, ast.Assert):
+                    v = _tv(s.test, None, atom)
+                    if v is False:
+                        continue
+                    nxt.append((env, sure and v is True, taken))
+                    continue
+                env = dict(env)
+                if isinstance(s, ast.Assign) and len(s.targets) == 1 and isinstance(s.targets[0], ast.Name):
+                    env[s.targets[0].id] = _dtype_eval(s.value, env)
+                else:
+                    kill(s, env)
+                    for x in ast.walk(s):       # `X.dtype = ...`, `X.shape = ...`
+                        if isinstance(x, ast.Attribute) and isinstance(x.ctx, ast.Store) and isinstance(x.value, ast.Name):
+                            env[x.value.id] = None
+                nxt.append((env, sure, taken))
+            states = nxt
+        return states
+    try:
+        for d0, _, _, _ in _DTYPES:
+            run(fn.body, {P: d0}, True, [], d0)
+    except _Stop:
+        return None
+    return results
+
+
 def d3_dtype(ck, rx, mp):
     """Sibling agreement on the DOMAIN, element type: `_prinz_mle_py` converts
     its argument (C12.D4.copy: astype(float)) and therefore accepts integer and
@@ -2805,7 +3126,36 @@ def d3_dtype(ck, rx, mp):
                            'returns the MLE: the two implementations do not agree on integer count matrices. Convert at the call: '
                            'np.asarray(%s, dtype=np.float64)' % (f2.name, u(e)[:40], F, F, P, at.elem, at.ndim, u(e)[:40]))
                 else:
-                    ck.missing(rule, '%s::%s: dtype of `%s` handed to %s not decided' % (m2.rel.split('/')[-1], f2.name, u(e)[:60], F))
+                    # the argument is converted on some paths only: element type of the argument per element type of the
+                    # caller's matrix (finite domain), along the paths of the wrapper
+                    P2 = params(f2)[0] if params(f2) else None
+                    res = None
+                    if P2 is not None:
+                        def dense_atom(x, _m=m2, _f=f2i, _p=P2):
+                            val = _dense_atom(ck, _m, x, _p)
+                            if val is None or not isinstance(x.args[0], ast.Name) or set(_f.defs_of_use(x.args[0])) != {'PARAM'}:
+                                return None
+                            return lambda k, _v=val: _v
+                        res = dtype_at_call(m2, f2, c, a, P2, dense_atom)
+                    admitted = {d for d, _, _, adm in _DTYPES if adm}
+                    wrong = [x for x in (res or []) if x[1] not in (None, 'float64') and x[2] and x[0] in admitted]
+                    if res and all(x[1] == 'float64' for x in res) and {x[0] for x in res} >= admitted:
+                        ck.ok(rule, m2, c, construct, 'float64 on every path, for every element type of the caller\'s matrix')
+                    elif wrong:
+                        d0, got, _, taken = wrong[0]
+                        also = sorted({x[0] for x in wrong} - {d0})
+                        guard = [t for t, pol in taken if any(isinstance(y, ast.Attribute) and y.attr == 'dtype' for y in ast.walk(t))]
+                        node = guard[-1] if guard else c
+                        ck.bad(rule, m2, (m2.enclosing_stmt(node) or c) if guard else c, f2.name, construct,
+                               '%s hands `%s` to %s with element type %s when the caller\'s matrix is %s (path: %s)%s, and %s declares `%s` '
+                               'as np.ndarray[%s, ndim=%s]: Cython\'s buffer acquisition raises ValueError("Buffer dtype mismatch") there, '
+                               'while the pure-Python sibling converts with astype(float) and returns the MLE. The conversion to float64 '
+                               'must not depend on a test that admits other element types: np.asarray(%s, dtype=np.float64)' % (
+                                   f2.name, u(a)[:40], F, got, d0,
+                                   ' and '.join(('%s' if pol else 'not (%s)') % u(t)[:60] for t, pol in taken) or 'unconditional',
+                                   '; likewise for ' + ', '.join(also) if also else '', F, P, at.elem, at.ndim, P2))
+                    else:
+                        ck.missing(rule, '%s::%s: dtype of `%s` handed to %s not decided' % (m2.rel.split('/')[-1], f2.name, u(e)[:60], F))
     if n == 0:
         ck.observe(rule, mod, fn, '%s accepts only %s buffers for `%s` and has no caller in the package' % (F, at.elem, P))
 
@@ -2843,6 +3193,8 @@ def _float_flow(fn, float_buffers, float_names, constants=False):
             return not isinstance(e.op, ast.Not) and fv(e.operand)
         if isinstance(e, ast.IfExp):
             return fv(e.body) or fv(e.orelse)
+        if _cy_cast(e) is not None:
+            return fv(_cy_cast(e)[1])
         if isinstance(e, ast.Call):
             last = (call_name(e) or '').split('.')[-1]
             if last in _FLOAT_FUNCS or last in ('float', 'float64', 'double'):
@@ -2947,6 +3299,21 @@ def d3_precision(ck, rx):
                    'it to an integer, while the pure-Python sibling keeps it in float64. Declare it `double`' % (impl, nm, what, t.text))
         else:
             ck.missing(rule, '%s: C type `%s` of `%s` (%s) not in the table' % (impl, t.text, nm, what))
+    # explicit / inlined-helper casts of a data-carrying value: the target type is a representation just as a declaration is
+    _, fvd = _float_flow(fn, fbuf, {rx.tol})
+    for c in ast.walk(fn):
+        if _cy_cast(c) is None or not fvd(_cy_cast(c)[1]):
+            continue
+        T = _cy_cast(c)[0]
+        construct = '%s: <%s>(%s)' % (impl, T, u(_cy_cast(c)[1])[:60])
+        if T in _C_DOUBLE:
+            ck.ok(rule, mod, c, construct, 'floating-point value passed on as a C double')
+        elif T in _C_NARROW_FLOAT or _C_INTEGRAL.match(T):
+            ck.bad(rule, mod, c, F, construct,
+                   '%s: a floating-point value computed from the counts is converted to `%s` (typed parameter / result of a cdef '
+                   'helper, or a cast): it is rounded to 24 bits / truncated there, while the pure-Python sibling keeps it in float64' % (impl, T))
+        else:
+            ck.missing(rule, '%s: C type `%s` of a cast of a floating-point value not in the table' % (impl, T))
     # the accumulator chain itself must have been looked at (declared -> checked above; undeclared -> Python float)
     for nm in sorted(set(rx.acc.values()) | {rx.logl}):
         if nm not in decls:
